@@ -48,7 +48,7 @@ def level? (level : Int) : Option Nat :=
 def encode (P : Prim) (v : Bytes) (level : Int) : Res Bytes :=
   match level? level with
   | none => .err
-  | some l => P.compress l v
+  | some l => P.compress (min l 9) v      -- level 10 is clamped to flate2's maximum 9
 
 /-- `decode_gzip(value)`. -/
 def decode (P : Prim) (v : Bytes) : Res Bytes :=
@@ -76,7 +76,7 @@ def level? (level : Int) : Option Nat :=
 def encode (P : Prim) (v : Bytes) (level : Int) : Res Bytes :=
   match level? level with
   | none => .err
-  | some l => P.compress l v
+  | some l => P.compress (min l 9) v      -- level 10 is clamped to flate2's maximum 9
 
 def decode (P : Prim) (v : Bytes) : Res Bytes :=
   match P.decompress v with
@@ -195,7 +195,7 @@ structure Prim where
 /-- `encode_charset(value, to_charset)`: `from_utf8(value).unwrap()` panics on ill-formed UTF-8
     before the label is looked up. -/
 def encodeCharset (P : Prim) (v label : Bytes) : Res Bytes :=
-  if Utf8.lossy v ≠ v then .panic
+  if Utf8.lossy v ≠ v then .err          -- "value is not valid UTF-8" (was: `unwrap` panic)
   else match P.forLabel label with
     | none => .err
     | some e => .ok (P.encode e v)
